@@ -16,6 +16,7 @@ FAM_DESC = {
     "ch3": "CH(3): S : z Ni ti for every ordered non-empty subset of N1..N3, Ni : ci and/or Ni : Nj in both orders, rule groups in every order; inputs z cj ti",
     "ch4": "CH(4), own/unit order chosen once for all nonterminals; inputs z cj ti",
     "ch4s": "CH(4) with the start rules S : z N1 t1 | .. | z N4 t4 only; inputs z cj ti",
+    "rep": "6 curated grammars on generated repetitive inputs: all concatenations of <= r fragments with one offending fragment at every position (<= 30 tokens)",
 }
 CHFL = ["--la", "0,1,2", "--one", "1", "--cost", "0", "--rec", "0"]
 
